@@ -73,10 +73,12 @@ def fingerprint(p):
             "rew": [(repr(k), repr(v)) for k, v in sp["rew"].items()],
             "actions": [(repr(k), type(v).__name__, repr(list(v))) for k, v in sp["actions"].items()],
             "absorbing": repr(sp["absorbing"]), "init": d(sp["init"]),
-            "lists": repr((getattr(p, "_state_list", None), getattr(p, "_action_list", None)))}
+            "lists": repr((getattr(p, "_state_list", None), getattr(p, "_action_list", None),
+                           [type(p).__dict__.get(k) for k in ("state_list", "action_list", "observation_list")]))}
 
 
-def build_pomdp(case, explicit_lists=False, labels=None, int01=False, dist_types=False, share_objects=False):
+def build_pomdp(case, explicit_lists=False, labels=None, int01=False, dist_types=False, share_objects=False,
+                declare=None):
     """labels=None: states, actions and observations are the integer ids of the case; otherwise
     {"S": [...], "A": [...], "O": [...]} tagged labels per id (see dec_label).  The label lists are
     left on the object as _gen_S / _gen_A / _gen_O (id -> label).
@@ -84,6 +86,9 @@ def build_pomdp(case, explicit_lists=False, labels=None, int01=False, dist_types
     msdm derives them by reachability and sorts them.
     int01=True: probabilities / rewards that are whole numbers are passed as Python ints.
     dist_types=True: certain rows become DeterministicDistribution, uniform rows UniformDistribution.
+    declare={"O": [ids], "S": [ids] (optional), "A": [ids] (optional)}: the POMDP class DECLARES observation_list
+    (and state_list / action_list) itself, as class attributes in the given -- not sorted -- order, the way
+    msdm/domains/loadunload.py does; every index-based accessor must then follow the declared order.
     share_objects=True: equal kernel rows are ONE DictDistribution object returned for several (s, a) / (a, ns),
     actions(s) returns a mutable list, the same list object for all states with the same action set, and
     explicit state / action lists are mutable lists (see fingerprint)."""
@@ -140,7 +145,15 @@ def build_pomdp(case, explicit_lists=False, labels=None, int01=False, dist_types
     if share_objects:
         lists = {}
         spec["actions"] = {k: lists.setdefault(v, list(v)) for k, v in spec["actions"].items()}
-    p = _the_class()(spec)
+    cls = _the_class()
+    if declare:
+        attrs = {"observation_list": [O[i] for i in declare["O"]]}
+        if declare.get("S"):
+            attrs["state_list"] = [S[i] for i in declare["S"]]
+        if declare.get("A"):
+            attrs["action_list"] = [A[i] for i in declare["A"]]
+        cls = type("DeclaringPOMDP", (cls,), attrs)
+    p = cls(spec)
     p._gen_S, p._gen_A, p._gen_O = S, A, O
     if explicit_lists:
         p._state_list = list(S[:n]) if share_objects else tuple(S[:n])
